@@ -6,6 +6,7 @@ CONSTANTS
   Classes <- CoreClasses
   MaxTamper = 1
   MaxEnv = 7
+  Total = 5
   Urgent = TRUE
   Guarded = TRUE
 VIEW view
